@@ -1,6 +1,7 @@
 package rules
 
 import (
+	"os"
 	"go/ast"
 	"go/types"
 	"strings"
@@ -218,6 +219,15 @@ func a1Report(p *core.Program, r *core.Report, rule string, pl *pipeline) []file
 	for _, e := range effs {
 		role := roleOf(e.In)
 		construct := "file effect " + e.Callee + " (" + e.Kind + ")"
+		// os.OpenFile(p, O_RDWR|O_CREATE|O_TRUNC, 0o666) is what os.Create(p) is defined as: counted as that site
+		if e.Callee == "os.OpenFile" && len(e.Call.Args) == 3 && seen[role+"|os.OpenFile"] >= 1 && seen[role+"|os.Create"] == 0 {
+			if fl, isC := core.ConstInt(e.In.Info(), e.Call.Args[1]); isC && fl == int64(os.O_RDWR|os.O_CREATE|os.O_TRUNC) {
+				if pm, isC2 := core.ConstInt(e.In.Info(), e.Call.Args[2]); isC2 && pm == 0o666 {
+					e.Callee = "os.Create"
+					construct = "file effect os.Create spelled as os.OpenFile (" + e.Kind + ")"
+				}
+			}
+		}
 		seen[role+"|"+e.Callee]++
 		if role != "" && seen[role+"|"+e.Callee] > 1 {
 			r.Bad(rule, e.In, construct+" (additional site)", e.Call.Pos(), "the inventory has one `"+e.Callee+"` site in the "+role+"; a second one is an unreviewed file-system effect")
